@@ -68,7 +68,7 @@ PROPS["C16"] = dict(
 )
 
 PROPS["C19"] = dict(
-    modules=["contracts.C19_status", "contracts.C11_need", "contracts.C19_targets", "contracts.C06_clean", "contracts.C04_noop"],
+    modules=["contracts.C19_status", "contracts.C11_need", "contracts.C19_targets", "contracts.C06_clean", "contracts.C04_noop", "contracts.C03_inputs"],
     decided=["flag logic of report_unbuilt and its helpers (FAILED, PENDING, DRAINED, WARNING bits) against the "
              "property's sentence", "Builder.finalize stores the code", "TUI status translation keeps every reported bit",
              "classification of glob violations"],
@@ -141,7 +141,7 @@ PROPS["C10"] = dict(
 )
 
 PROPS["C03"] = dict(
-    modules=["contracts.sched_sql", "contracts.C12_limits", "contracts.C10_dispatch", "contracts.C03_inputs", "contracts.C03_rerun", "contracts.C09_setters"],
+    modules=["contracts.sched_sql", "contracts.C12_limits", "contracts.C10_dispatch", "contracts.C03_inputs", "contracts.C03_rerun", "contracts.C09_setters", "contracts.C13_hash"],
     decided=["a selected step is ready, and ready means every initial input attached and BUILT/CONFIRMED, no attached "
              "dynamic input PLANNED/OUTDATED, no VOLATILE input", "_derive_job sanity checks", "a hash is recorded only "
              "if no input changed unexpectedly, no amended input was unavailable or unfresh and the run succeeded",
@@ -224,7 +224,7 @@ PROPS["C09"] = dict(
 )
 
 PROPS["C04"] = dict(
-    modules=["contracts.sched_sql", "contracts.C12_limits", "contracts.C10_dispatch", "contracts.C03_inputs", "contracts.C13_hash", "contracts.C04_noop", "contracts.C04_watcher", "contracts.C19_targets", "contracts.C09_setters", "contracts.C04_bounded"],
+    modules=["contracts.sched_sql", "contracts.C12_limits", "contracts.C10_dispatch", "contracts.C03_inputs", "contracts.C13_hash", "contracts.C04_noop", "contracts.C04_watcher", "contracts.C19_targets", "contracts.C09_setters", "contracts.C11_need", "contracts.C04_bounded"],
     decided=["reset_interrupted_steps changes no step state and marks nothing pending when no step is RUNNING, CHECKING or "
              "FAILED", "Executor._run_hash_job applies a recomputed file hash only if it differs from the stored one or the "
              "cause is CONFIRMED", "FileHash.refreshed returns the stored hash when mode, mtime, size and inode are unchanged "
@@ -244,7 +244,7 @@ PROPS["C04"] = dict(
 )
 
 PROPS["C05"] = dict(
-    modules=["contracts.sched_sql", "contracts.C12_limits", "contracts.C10_dispatch", "contracts.C03_inputs", "contracts.C04_noop", "contracts.C15_atomic", "contracts.C05_crash", "contracts.C09_setters", "contracts.C05_bounded"],
+    modules=["contracts.sched_sql", "contracts.C12_limits", "contracts.C10_dispatch", "contracts.C03_inputs", "contracts.C04_noop", "contracts.C15_atomic", "contracts.C05_crash", "contracts.C09_setters", "contracts.C19_targets", "contracts.C05_bounded"],
     decided=["reset_interrupted_steps leaves no step RUNNING or CHECKING, changes no other step state except to PENDING, and "
              "hands every attached FAILED step (formerly FAILED or RUNNING) to mark_step_pending", "mark_step_pending "
              "outdates the BUILT outputs of the step (C03)", "a step is dispatched to RUNNING only without a stored hash, "
